@@ -223,6 +223,15 @@ def run_schedule(ctx, case, chooser=None):
             if w not in wrappeds:
                 wrappeds[w] = LogCassette(fail_set(workload))
         cassettes = [A.AsyncRecordOnlyTapeCassette(wrappeds[w], flush_interval=0.1) for w, _ in sessions]
+        # locks that live on the cassette CLASSES (shared by every instance) are taken over as well
+        class_locks = []
+        for obj in list(cassettes) + list(wrappeds.values()):
+            for klass in type(obj).__mro__:
+                for name_, val_ in list(vars(klass).items()):
+                    tn = type(val_).__name__
+                    if tn in ('RLock', '_RLock', 'lock') and not isinstance(val_, (DS.CoLock, DS.CoRLock)):
+                        class_locks.append((klass, name_, val_))
+                        setattr(klass, name_, DS.CoRLock() if 'RLock' in tn else DS.CoLock())
         # the scheduler must own every primitive of the cassette; if the module stops using the names Lock / Event /
         # Thread the harness can no longer control it: that is a harness error, never a violation
         for cas in cassettes:
@@ -304,6 +313,8 @@ def run_schedule(ctx, case, chooser=None):
                             raise Violation('operations reaching wrapped recording %s on storage %d: %r, requested %r' % (
                                 rid, w2, got, seq if w2 == w else []), 'order-exactly-once')
     finally:
+        for klass, name_, val_ in locals().get('class_locks', []):
+            setattr(klass, name_, val_)
         for name_, val_ in saved.items():
             setattr(A, name_, val_)
         DS.install(None)
